@@ -127,12 +127,19 @@ fn sorted(mut v: Vec<usize>) -> Vec<usize> {
 }
 
 /// run the whole chain from the start selection; `map` renames start indices (face-permuted mesh)
-fn run_chain(mesh: &Mesh, root: &Value, steps: &[Value], refs: &[Option<Mesh>], s: f64, map: Option<&[usize]>) -> Vec<usize> {
+fn run_chain(mesh: &Mesh, root: &Value, steps: &[Value], refs: &Refs, s: f64, map: Option<&[usize]>) -> Vec<usize> {
     let mut f = mesh.face_select(start_sel(root, map));
-    for (st, r) in steps.iter().zip(refs.iter()) {
-        f = apply(f, st, r.as_ref(), s, mode_of(st));
+    for (k, st) in steps.iter().enumerate() {
+        f = apply(f, st, refs.get(k), s, mode_of(st));
     }
     f.collect()
+}
+
+/// reference meshes of a chain: steps that describe the same reference share ONE mesh object (as a caller who keeps a
+/// reference mesh around and filters against it several times would)
+struct Refs { pool: Vec<Mesh>, idx: Vec<Option<usize>> }
+impl Refs {
+    fn get(&self, k: usize) -> Option<&Mesh> { self.idx[k].map(|j| &self.pool[j]) }
 }
 
 fn mesh_json(q: &mut Q, m: &Mesh, s: f64) -> Value {
@@ -144,8 +151,18 @@ fn no_mesh() -> Value {
     json!({"ok": false, "verts": [], "faces": []})
 }
 
-fn refs_of(steps: &[Value], s: f64) -> Vec<Option<Mesh>> {
-    steps.iter().map(|st| if gs(&st["crit"], "kind") == "near" { Some(build_ref(&st["crit"]["ref"], s)) } else { None }).collect()
+fn refs_of(steps: &[Value], s: f64) -> Refs {
+    let mut keys: Vec<String> = vec![];
+    let mut pool = vec![];
+    let mut idx = vec![];
+    for st in steps {
+        if gs(&st["crit"], "kind") == "near" {
+            let key = st["crit"]["ref"].to_string();
+            let j = match keys.iter().position(|k| *k == key) { Some(j) => j, None => { keys.push(key); pool.push(build_ref(&st["crit"]["ref"], s)); pool.len() - 1 } };
+            idx.push(Some(j));
+        } else { idx.push(None); }
+    }
+    Refs { pool, idx }
 }
 
 /// observations common to the root record and every step record: the selection after the chain so far
@@ -179,8 +196,8 @@ fn observe(q: &mut Q, root: &Value, steps: &[Value]) -> Value {
     // mesh built from the selection (the filter's own create_mesh); an empty selection cannot be represented
     let built = catch_unwind(AssertUnwindSafe(|| {
         let mut f = mesh.face_select(start_sel(root, None));
-        for (st, r) in steps.iter().zip(refs.iter()) {
-            f = apply(f, st, r.as_ref(), s, mode_of(st));
+        for (k, st) in steps.iter().enumerate() {
+            f = apply(f, st, refs.get(k), s, mode_of(st));
         }
         f.create_mesh()
     }));
@@ -196,18 +213,19 @@ fn observe(q: &mut Q, root: &Value, steps: &[Value]) -> Value {
 fn isolated(root: &Value, step: &Value) -> (Vec<bool>, Vec<bool>, Vec<bool>) {
     let s = scale(root);
     let mesh = build_mesh(&gvvi(root, "vpos"), &gvvi(root, "faces"), s);
-    let refm = refs_of(std::slice::from_ref(step), s).pop().unwrap();
+    let refs1 = refs_of(std::slice::from_ref(step), s);
+    let refm = refs1.get(0);
     let nf = mesh.faces().len();
     let mut keep = vec![];
     let mut rem = vec![];
     let mut add = vec![];
     for f in 0..nf {
-        let k = apply(mesh.face_select(Selection::Indices(vec![f])), step, refm.as_ref(), s, SelectOp::Keep).collect();
+        let k = apply(mesh.face_select(Selection::Indices(vec![f])), step, refm, s, SelectOp::Keep).collect();
         keep.push(k.contains(&f));
-        let r = apply(mesh.face_select(Selection::Indices(vec![f])), step, refm.as_ref(), s, SelectOp::Remove).collect();
+        let r = apply(mesh.face_select(Selection::Indices(vec![f])), step, refm, s, SelectOp::Remove).collect();
         rem.push(!r.contains(&f));
         let others: Vec<usize> = (0..nf).filter(|&g| g != f).collect();
-        let a = apply(mesh.face_select(Selection::Indices(others)), step, refm.as_ref(), s, SelectOp::Add).collect();
+        let a = apply(mesh.face_select(Selection::Indices(others)), step, refm, s, SelectOp::Add).collect();
         add.push(a.contains(&f));
     }
     (keep, rem, add)
